@@ -46,7 +46,7 @@ impl Prop for C05 {
         "C05"
     }
     fn rule(&self) -> String {
-        "cases = C03-style conversations where every request (incl. the handshake response) carries a generated start sequence id (0 / 1 mostly, else uniform 0-255, with 254/255 favoured) and some programs produce 256-1100 response packets (hundreds of rows, or a 300-1000 column header); enumerated multi-fragment (>= 2^24-1 byte) requests so that the *last* request id matters. Oracle: greeting id 0; every reply's packets are last_request_id+1+i mod 256. Non-trivial = some response has > 255 packets, or some request id != 0, or a multi-fragment request, or a response message of 2^24-1 bytes or more (enumerated: a 16 MiB cell between ordinary rows, request ids 0 and 250).".into()
+        "cases = C03-style conversations where every request (incl. the handshake response) carries a generated start sequence id (0 / 1 mostly, else uniform 0-255, with 254/255 favoured) and some programs produce 256-1100 response packets (hundreds of rows, or a 300-1000 column header); 1 conversation in 1500 contains a row of 17-70 MB laid out against the packet boundaries (cells of 1x, 2x, 3x the packet size, several of them per row, small cells in between), in either protocol; enumerated multi-fragment (>= 2^24-1 byte) requests so that the *last* request id matters. Oracle: greeting id 0; every reply's packets are last_request_id+1+i mod 256. Non-trivial = some response has > 255 packets, or some request id != 0, or a multi-fragment request, or a response message of 2^24-1 bytes or more (enumerated: a 16 MiB cell between ordinary rows, request ids 0 and 250).".into()
     }
     fn assumptions(&self) -> Vec<String> {
         vec!["requests whose own fragments would wrap past id 255 are outside the domain (C20 covers them)".into()]
@@ -60,8 +60,9 @@ impl Prop for C05 {
     fn gen(&self, g: &mut G<'_>, _tier: Tier) -> Case {
         let opts = ConvOpts { max_cmds: 6, max_rows: 4, sentinels: g.coin(), default_init_sometimes: false, quit_sometimes: true };
         let mut conv = gen_conv(g, &opts);
-        // one long response sometimes
-        if g.chance(1, 4) {
+        // one long response sometimes; rarely one whose rows are longer than a wire packet
+        let big_layout = g.chance(1, 1500);
+        if big_layout || g.chance(1, 4) {
             let mut idx = Vec::new();
             let mut ai = 0;
             for sc in conv.cmds.iter() {
@@ -79,13 +80,21 @@ impl Prop for C05 {
             }
             if !idx.is_empty() {
                 let (ai, bin) = *g.pick(&idx);
+                if big_layout {
+                    let (cols, big) = gen_big_layout_row(g, bin);
+                    let small = RowProg { cells: cols.iter().map(|_| Val { base: Base::U8(0), wrap: Wrap::None }).collect(), form: RowForm::WriteRow, offers: vec![] };
+                    let rows = if g.coin() { vec![small.clone(), big, small] } else { vec![big] };
+                    conv.actions[ai] = Action::Result(Program { steps: vec![Step::Set { cols, rows, end: SetEnd::Finish }] });
+                }
                 let (rows, ncols) = match g.below(4) {
                     0 => (g.usize_in(250, 260), 1),
                     1 => (g.usize_in(500, 1100), 2),
                     2 => (2, g.usize_in(252, 258)),
                     _ => (g.usize_in(0, 3), *g.pick(&[300usize, 510, 1000])),
                 };
-                conv.actions[ai] = Action::Result(long_program(g, bin, rows, ncols));
+                if !big_layout {
+                    conv.actions[ai] = Action::Result(long_program(g, bin, rows, ncols));
+                }
             }
         }
         for sc in conv.cmds.iter_mut() {
@@ -102,6 +111,15 @@ impl Prop for C05 {
         };
         let (len, ends, _) = client_stream_meta(&conv);
         conv.sched = gen_schedule(g, len, &ends);
+        if big_layout {
+            // tens of megabytes through a transport that takes a few bytes per write() would only
+            // exhaust the operation budget
+            for a in conv.sched.write_accept.iter_mut() {
+                if *a != 0 && *a < 1 << 16 {
+                    *a = (1 << 16) + *a * 4099;
+                }
+            }
+        }
         Case { conv }
     }
     fn fixed(&self, tier: Tier) -> Vec<Case> {
@@ -140,8 +158,8 @@ impl Prop for C05 {
         // responses that contain a message of 2^24-1 bytes or more: the continuation packets
         // must keep counting (a text row: 1 + lenenc(3/4 bytes) + cell)
         let cells: &[usize] = match tier {
-            Tier::Quick => &[MAX_PAYLOAD - 4, MAX_PAYLOAD + 100],
-            Tier::Thorough => &[MAX_PAYLOAD - 5, MAX_PAYLOAD - 4, MAX_PAYLOAD - 3, MAX_PAYLOAD + 100, 2 * MAX_PAYLOAD - 9, 2 * MAX_PAYLOAD + 7],
+            Tier::Quick => &[MAX_PAYLOAD - 4, MAX_PAYLOAD + 100, 3 * MAX_PAYLOAD + 50],
+            Tier::Thorough => &[MAX_PAYLOAD - 5, MAX_PAYLOAD - 4, MAX_PAYLOAD - 3, MAX_PAYLOAD + 100, 2 * MAX_PAYLOAD - 9, 2 * MAX_PAYLOAD + 7, 3 * MAX_PAYLOAD - 9, 3 * MAX_PAYLOAD + 50, 4 * MAX_PAYLOAD + 1],
         };
         for (i, &len) in cells.iter().enumerate() {
             for &seq in &[0u8, 250] {
@@ -176,6 +194,19 @@ impl Prop for C05 {
         let big_response = d.phys.iter().any(|p| p.len == MAX_PAYLOAD);
         if big_response {
             ex.class("response-message>=2^24-1");
+            for a in &c.actions {
+                if let Action::Result(p) = a {
+                    for st in &p.steps {
+                        if let Step::Set { rows, .. } = st {
+                            for r in rows.iter().filter(|r| r.cells.iter().any(|c| matches!(c.base, Base::BigBytes { .. }))) {
+                                for cl in classify_big_layout(r) {
+                                    ex.class(cl);
+                                }
+                            }
+                        }
+                    }
+                }
+            }
         }
         ex.nontrivial = multi || nonzero || long || big_response;
         if multi {
